@@ -1310,10 +1310,21 @@ where
             }
         };
 
+        if proofs_share.len() != self.typ.proof_len() * self.num_proofs() {
+            return Err(VdafError::Uncategorized(format!(
+                "unexpected proofs share length: got {}; want {}",
+                proofs_share.len(),
+                self.typ.proof_len() * self.num_proofs(),
+            )));
+        }
+
         // Compute the joint randomness.
         let (joint_rand_seed, joint_rand_part, joint_rands) = if self.typ.joint_rand_len() > 0 {
+            let joint_rand_blind = msg.joint_rand_blind().ok_or_else(|| {
+                VdafError::Uncategorized("input share is missing the joint randomness blind".into())
+            })?;
             let mut joint_rand_part_xof = P::init(
-                msg.joint_rand_blind().as_ref().unwrap().as_ref(),
+                joint_rand_blind.as_ref(),
                 &[&self.domain_separation_tag(DST_JOINT_RAND_PART), ctx],
             );
             joint_rand_part_xof.update(&[agg_id]);
@@ -1425,7 +1436,11 @@ where
             }
 
             if self.typ.joint_rand_len() > 0 {
-                let joint_rand_seed_part = share.joint_rand_part.unwrap();
+                let joint_rand_seed_part = share.joint_rand_part.ok_or_else(|| {
+                    VdafError::Uncategorized(
+                        "verifier share is missing the joint randomness part".into(),
+                    )
+                })?;
                 joint_rand_parts.push(joint_rand_seed_part);
             }
 
@@ -1465,13 +1480,14 @@ where
     ) -> Result<VerifyTransition<Self, SEED_SIZE, 16>, VdafError> {
         if self.typ.joint_rand_len() > 0 {
             // Check that the joint randomness was correct.
-            if step
-                .joint_rand_seed
-                .as_ref()
-                .unwrap()
-                .ct_ne(msg.joint_rand_seed.as_ref().unwrap())
-                .into()
-            {
+            let (Some(state_seed), Some(msg_seed)) =
+                (step.joint_rand_seed.as_ref(), msg.joint_rand_seed.as_ref())
+            else {
+                return Err(VdafError::Uncategorized(
+                    "missing joint randomness seed".to_string(),
+                ));
+            };
+            if state_seed.ct_ne(msg_seed).into() {
                 return Err(VdafError::Uncategorized(
                     "joint randomness mismatch".to_string(),
                 ));
